@@ -136,3 +136,17 @@ static std::string op_ai(const Toks &t) {
     return "UNSUPPORTED";
 }
 static Reg r_ai("AI", op_ai);
+
+// nonce helpers: NINC <nonce16> -> incremented nonce ; NSETCTR <decimal> -> 16 bytes
+static std::string op_ninc(const Toks &t) {
+    Buf n(unhex(t[1]));
+    ascon_aead_increment_nonce(n.p);
+    return n.hx();
+}
+static Reg r_ninc("NINC", op_ninc);
+static std::string op_nsetctr(const Toks &t) {
+    Buf n(16);
+    ascon_aead_set_counter(n.p, (uint64_t)strtoull(t[1].c_str(), 0, 10));
+    return n.hx();
+}
+static Reg r_nsetctr("NSETCTR", op_nsetctr);
